@@ -298,6 +298,17 @@ def gen_cases(rng, tier, only_forms=None):
             cases.append({'kind': 'network', 'tag': tag, 'N': N, 'D': D, 'form': 'default', 'mode': 'impedance'})
         if fi % 11 == 0 and not only_forms:
             cases.append({'kind': 'network', 'tag': tag, 'N': N, 'D': D, 'form': 'martinI', 'mode': 'impedance'})
+    # every subset of {1/s, 1, s} for every pattern realiser of the matching kind (series: Z, parallel: Y)
+    for bits in range(1, 8):
+        co = [rz(rng, neg=True) if bits >> k & 1 else F(0) for k in range(3)]
+        Ns, Ds = lowest_terms(co, [0, 1])
+        for form in FORMS:
+            if only_forms and form not in only_forms:
+                continue
+            if form.startswith('series') or form == 'RLC':
+                cases.append({'kind': 'network', 'tag': 'grid', 'N': Ns, 'D': Ds, 'form': form, 'mode': 'impedance'})
+            if form.startswith('parallel') or form == 'RLC':
+                cases.append({'kind': 'network', 'tag': 'grid', 'N': Ds, 'D': Ns, 'form': form, 'mode': 'impedance'})
     # transform of random networks (positive and negative element values)
     nt = 14 if tier == 'quick' else 100
     tforms = ['cauerI', 'cauerII', 'fosterI', 'fosterII']
@@ -453,18 +464,21 @@ def qc(x):
 
 def qpoly(cs):
     if not cs:
-        return '(@nil Qc)'
-    return '[%s]' % '; '.join(qc(c) for c in cs)
+        return '(@nil Qc : list QcF)'
+    return '([%s] : list QcF)' % '; '.join(qc(c) for c in cs)
 
 
 def qtree(t):
     if t[0] in ('Ser', 'Par'):
-        return '(%s [%s])' % (t[0], '; '.join(qtree(x) for x in t[1:]))
-    return '(Leaf k%s %s)' % (t[0], qc(t[1]))
+        return '(%sQ [%s])' % (t[0], '; '.join(qtree(x) for x in t[1:]))
+    return '(Lf k%s %s)' % (t[0], qc(t[1]))
 
 
 CASES_PRELUDE = '''
 Local Open Scope bool_scope.
+Definition Lf (k : kind) (v : Qc) : net QcF := @Leaf QcF k v.
+Definition SerQ (l : list (net QcF)) : net QcF := @Ser QcF l.
+Definition ParQ (l : list (net QcF)) : net QcF := @Par QcF l.
 Inductive obs := ONet (n : net QcF) | ONone | OErr | OAny.
 Definition agree (r : res (option (net QcF))) (o : obs) : bool :=
   match r, o with
@@ -506,7 +520,7 @@ def case_item(i, c, r, tr):
     if st == 'net' and r.get('tree') is None:
         return None, 'irrational-elements'
     obs = {'net': lambda: 'ONet %s' % qtree(r['tree']), 'none': lambda: 'ONone', 'error': lambda: 'OErr'}[st]()
-    xs = '[%s]' % '; '.join(qc(x) for x in c['xs'])
+    xs = '([%s] : list QcF)' % '; '.join(qc(x) for x in c['xs'])
     form = '"%s"%%string' % c['form']
     ts = rat_terms(c, r, tr)
     note = 'compared'
@@ -549,7 +563,7 @@ def case_item(i, c, r, tr):
 def tsl(ts):
     if not ts:
         return '(@nil (rat QcF))'
-    return '[%s]' % '; '.join('(%s, %s)' % (qpoly(n), qpoly(d)) for n, d in ts)
+    return '([%s] : list (rat QcF))' % '; '.join('(%s, %s)' % (qpoly(n), qpoly(d)) for n, d in ts)
 
 
 def cases_v(tr, items):
@@ -566,6 +580,17 @@ def classify(c):
     if c['kind'] == 'transform':
         return 'transform'
     return c.get('tag', '?')
+
+
+def obligation_form(name):
+    """the synthesis form a generated statement is about"""
+    m = re.match(r'(?:pattern|coeff)_([A-Za-z]+?)(?:_realises|_rejects_\w+|_form)?$', name)
+    if m and name.startswith(('pattern_', 'coeff_')):
+        return m.group(1)
+    m = re.match(r'([A-Za-z]+)_realises$', name)
+    if m:
+        return m.group(1)
+    return None
 
 
 def main_key(c, what):
@@ -737,8 +762,8 @@ def run(tier='quick', replay=None):
                                'case': c, 'lcapy': d['lcapy'], 'found_input': False,
                                'correspondence': 'LT.SynthLadder.network_model / transform_model vs lcapy.synthesis'})
         for name, f, msg in res.failed_obl:
-            forms_hit = [fm for fm in FORMS if fm in name]
-            if forms_hit and any(fm in bad_forms for fm in forms_hit):
+            fm = obligation_form(name)
+            if fm is not None and fm in bad_forms:
                 continue
             if name in ('forms_wf', 'network_realises', 'transform_preserves_Z_all') and bad_forms:
                 continue
